@@ -245,25 +245,53 @@ class Instr:
         return False
 
 
-def _outcome(e):
+def _outcome(e, sc=None, t=None, parents=False):
+    """
+    the outcome class of a pull — by exception TYPE and by the observable STATE the refusal is about, never by
+    the wording of a message
+    """
     from pyiron_workflow.topology import CircularDataFlowError
 
     if e is None:
         return "ok"
     if isinstance(e, CircularDataFlowError):
         return "cyclic"
-    if isinstance(e, ValueError) and "incompatible with using executors" in str(e):
-        return "exec"
-    if isinstance(e, ValueError) and "must all be siblings" in str(e):
-        return "mixed"
     name = type(e).__name__
     if name in ("Boom", "FailedChildError", "ReadinessError"):
         return "failed"
-    if name == "RuntimeError" and "data input locked" in str(e):
-        return "failed"  # a `running` node refuses new input even before it refuses to run
-    if name == "KeyError" and re.fullmatch(r"'n\d+\d{9,}'", str(e)):
-        return "failed"  # a parent with a `running` child resumes "a broken process" by (temporary) label
+    running = sc is not None and any(getattr(n, "running", False) for n in sc.node.values())
+    if isinstance(e, (RuntimeError, KeyError)) and running:
+        # a node marked `running` refuses new input (locked) before it refuses to run; a parent with a `running`
+        # child tries to resume "a broken process" by (temporary) label
+        return "failed"
+    if isinstance(e, ValueError) and sc is not None:
+        # a refusal of the pull itself: what is it that the inspected closures contain?
+        why = _refusal_state(sc, t, parents)
+        if why is not None:
+            return why
     return f"exc:{name}"
+
+
+def _refusal_state(sc, t, parents):
+    """'exec' if a closure the pull inspects holds a node with an executor, 'mixed' if one spans two scopes"""
+    node = sc.node[t]
+    chain = [node]
+    while parents and chain[0].parent is not None:
+        chain.insert(0, chain[0].parent)
+    for a in chain:  # root-most level first, as the pull does
+        seen, todo = {id(a): a}, [a]
+        while todo:
+            x = todo.pop()
+            for inp in x.inputs:
+                for c in inp.connections:
+                    if id(c.owner) not in seen:
+                        seen[id(c.owner)] = c.owner
+                        todo.append(c.owner)
+        if any(x.executor is not None for x in seen.values()):
+            return "exec"
+        if any(x.parent is not a.parent for x in seen.values()):
+            return "mixed"
+    return None
 
 
 def _nats(l):
@@ -295,6 +323,12 @@ def unit_log(exec_log, t, parent, composites):
     return out
 
 
+def _if_class():
+    from pyiron_workflow.nodes.standard import If
+
+    return If
+
+
 def obs_lines(sc, rec, init_labels, parent):
     s = rec["after"]
     leaf = unit_log(rec["exec"], rec["t"], parent, sc.composites)
@@ -302,13 +336,14 @@ def obs_lines(sc, rec, init_labels, parent):
     return [
         f"outcome {rec['outcome']}",
         f"log {_nats(leaf)}",
-        ("conns " + " ".join(f"{c}:{_nats(l)}" for c, l in sorted(s["conns"].items()))).rstrip() + (
+        ("conns " + " ".join(f"{c}:{_nats(sorted(l))}" for c, l in sorted(s["conns"].items()))).rstrip() + (
             "" if s["conns"] else " "),
         f"relabelled {_nats(sorted(relab))}",
-        ("starting " + " ".join(f"{p}:{_nats(s['starting'][p])}" for p in sc.composites)).rstrip() + (
+        ("starting " + " ".join(f"{p}:{_nats(sorted(s['starting'][p]))}" for p in sc.composites)).rstrip() + (
             "" if sc.composites else " "),
         ("automate " + " ".join(f"{p}:{int(s['automate'][p])}" for p in sc.wfs)).rstrip() + ("" if sc.wfs else " "),
         f"failed {_nats(unit_log(s['failed'], rec['t'], parent, []))}",
+        f"ordered {int(rec['before']['conns'] == s['conns'])}",
     ]
 
 
@@ -337,7 +372,7 @@ def run_impl(case):
         "wfs": sc.wfs,
         "deps": live_deps(sc),
         "init": snapshot(sc),
-        "ifs": {g: bool(n.inputs.condition.value) for g, n in sc.node.items() if type(n).__name__ == "If"},
+        "ifs": {g: bool(n.inputs.condition.value) for g, n in sc.node.items() if isinstance(n, _if_class())},
         "links": _value_links(sc),
         "slots": live_slots(sc),
     }
@@ -359,7 +394,7 @@ def run_impl(case):
             rec = {
                 "t": t,
                 "parents": bool(parents),
-                "outcome": _outcome(err),
+                "outcome": _outcome(err, sc, t, bool(parents)),
                 "err": None if err is None else f"{type(err).__name__}: {str(err)[:200]}",
                 "exec": list(ins.exec_log),
                 "hits": list(ins.hits),
@@ -508,15 +543,30 @@ ALIVE = set(TAGS)  # variants that explained every case so far (the tree is ONE 
 VARIANT_HITS: dict = {}
 
 
+def _norm(line):
+    """connection lists and starting nodes as sets (sorted)"""
+    if line.startswith("conns") or line.startswith("starting"):
+        return re.sub(r"\[([0-9,]*)\]",
+                      lambda m: "[" + ",".join(map(str, sorted(int(x) for x in m.group(1).split(",") if x))) + "]", line)
+    return line
+
+
 def diff(case, impl, model):
     refused = sum(1 for l in model if l.strip() == "bad-op")
     if refused != len(case.get("raw", [])):
         return {"index": -3, "impl": f"{len(case.get('raw', []))} malformed lines", "model": f"{refused} refused"}
-    mine = [l.rstrip() for l in impl["obs"]]
+    mine_all = [l.rstrip() for l in impl["obs"]]
+    mine = mine_all
     best = None
     ok_tags = set()
     for tag in TAGS:
-        theirs = [l[len(tag) + 1:].rstrip() for l in model if l.startswith(tag + " ")]
+        theirs = [_norm(l[len(tag) + 1:].rstrip()) for l in model if l.startswith(tag + " ")]
+        if tag[4] == "0":
+            # re-connecting remembered pairs yields the same connections in *some* order
+            theirs = [l for l in theirs if not l.startswith("ordered")]
+            mine = [l for l in mine_all if not l.startswith("ordered")]
+        else:
+            mine = mine_all
         if theirs == mine:
             ok_tags.add(tag)
             continue
